@@ -430,5 +430,29 @@ def rule_d8(repo):
     return res
 
 
+def rule_d9(repo):
+    """The admission tests of a definition ask which constants / variables / type variables occur in a term
+    (Term.get_consts, get_vars, get_svars, get_stvars ..).  These functions list each item once by remembering what was
+    seen.  What is remembered must be the item itself: remembered by name, the second instance of an overloaded constant
+    (c :: nat => bool after c :: bool => bool) is never listed, and the test "the defined constant does not occur on the
+    right" does not see it."""
+    from ..idioms import dedup_sites
+    res = RuleResult('C11.D9', 'the collections of constants and variables of a term keep one entry per item, not one per name', floor=5)
+    for rel in ('kernel/term.py', 'kernel/type.py'):
+        m = repo.module(rel)
+        for f in m.all_funcs:
+            if f.parent is not None or not f.name.startswith('get_'):
+                continue
+            for app, elem, key, adds in dedup_sites(f.node):
+                keys = [src(key, 60)] + [src(a, 60) for a in adds]
+                ok = all(k == src(elem, 60) for k in keys)
+                res.add('%s :: %s :: one-entry-per(%s)' % (rel, f.qualname, src(elem, 30)), ok,
+                        'an item is skipped only if the same item was listed' if ok else
+                        'line %d lists `%s` unless `%s` was seen before: items that differ but agree on that key are dropped - of two instances of an '
+                        'overloaded constant only the first is reported, and a definition c n <--> (c true --> ~ c n) passes the test that c :: nat => bool '
+                        'does not occur in its own definition' % (app.lineno, src(elem, 30), keys[0]), '%s:%d' % (rel, app.lineno))
+    return res
+
+
 def rules(repo):
-    return [rule_d1(repo), rule_d2(repo), rule_d3(repo), rule_d4(repo), rule_d5(repo), rule_d6(repo), rule_d7(repo), rule_d8(repo)]
+    return [rule_d1(repo), rule_d2(repo), rule_d3(repo), rule_d4(repo), rule_d5(repo), rule_d6(repo), rule_d7(repo), rule_d8(repo), rule_d9(repo)]
